@@ -298,7 +298,7 @@ class CFG:
     while q:
       n = q.pop()
       for m, lab in n.succ:
-        if not follow_exc and lab == 'exc':
+        if not follow_exc and lab == 'exc' and n.kind not in ('pad', 'raisestmt'):
           continue
         if (m.id in blocked_nodes or (n.id, m.id, lab) in blocked_edges
             or m.id in seen):
